@@ -345,6 +345,16 @@ def run_shard(spec_, R):
                             p0, p1 = np.asarray(pair[0], float), np.asarray(pair[1], float)
                             R.check(bool(np.all(np.abs(p0 - p1) <= (1e-5 if f32 else 1e-12) * np.abs(p1))), "normalize_equalises",
                                     lambda: {**case, "normalised": p0.tolist() if p0.size < 5 else "array", "reference": p1.tolist() if p1.size < 5 else "array"}, group=grp)
+                        # the same geometry and the same reference image object, whose content has changed in the meantime
+                        ref.img[...] = ref.img * np.asarray(1.0 + 0.03 * rng.random(), ref.img.dtype)
+                        ok, nrm2 = R.guarded("normalize", lambda: g3.normalize(im, ref), key=lambda e, w: key)
+                        if ok:
+                            ok, pair2 = R.guarded("integrate", lambda: (g3.integrate(nrm2), g3.integrate(ref)), key=lambda e, w: key)
+                            if ok:
+                                q0, q1 = np.asarray(pair2[0], float), np.asarray(pair2[1], float)
+                                R.check(bool(np.all(np.abs(q0 - q1) <= (1e-5 if f32 else 1e-12) * np.abs(q1))), "normalize_equalises",
+                                        lambda: {**case, "what": "reference image modified in place between two normalisations", "normalised": q0.tolist() if q0.size < 5 else "array",
+                                                 "reference": q1.tolist() if q1.size < 5 else "array"}, group=grp + "/reference_changed")
 
     # ---------------------------------------------------------- offline checker
     # sequential specification "a call is a function of (geometry, data)": events with the
